@@ -114,6 +114,11 @@ def child_main(chan, cache_dir, installed_dir, task, chunks=CHUNKS, lock_timeout
     def replace(src, dst, **k):
         if _under(dst, cache_dir):
             point("replace", f=os.path.basename(dst), src=os.path.basename(src))
+            r = real_replace(src, dst, **k)
+            # the instant after the rename, still inside the call: a kill here shows what the file under its final name holds
+            # BEFORE the caller does anything else (the parent passes this point silently unless it asked to stop at it)
+            point("replaced", f=os.path.basename(dst))
+            return r
         return real_replace(src, dst, **k)
 
     def rename(src, dst, **k):
@@ -336,6 +341,9 @@ class Child:
                 evs.append(m)
                 continue
             if m["t"] == "op":
+                if m.get("op") == "replaced" and not getattr(self, "stop_at_replaced", False):
+                    os.write(self.wfd, b"g")          # a silent point: passed without a step of its own
+                    continue
                 self.pending = m
                 break
             if m["t"] == "fin":
